@@ -3,7 +3,6 @@ use std::sync::atomic::{self, AtomicUsize};
 
 use skipfree::{SkipList, SkipListIterator};
 use sst::bounds_cursor::BoundsCursor;
-use sst::pruning_cursor::PruningCursor;
 use sst::{Cursor, Key, KeyRef};
 
 use super::WriteBatch;
@@ -64,12 +63,14 @@ impl MemTable {
         &self,
         start_bound: &Bound<T>,
         end_bound: &Bound<T>,
-        timestamp: u64,
+        _timestamp: u64,
     ) -> Result<MemTableCursor, SError> {
+        // NOTE:  Do not prune here.  Pruning drops tombstones, and a tombstone in this memtable
+        // must survive until it has been merged with (and shadowed) older values of its key in
+        // the other components.  The caller prunes once, above the merge.
         let iter = self.skiplist.iter();
         let wrapper = SkipListIteratorWrapper { iter };
-        let cursor = PruningCursor::new(wrapper, timestamp)?;
-        let cursor = BoundsCursor::new(cursor, start_bound, end_bound)?;
+        let cursor = BoundsCursor::new(wrapper, start_bound, end_bound)?;
         Ok(MemTableCursor { cursor })
     }
 }
@@ -129,7 +130,7 @@ impl Cursor for SkipListIteratorWrapper {
 ////////////////////////////////////////// MemTableCursor //////////////////////////////////////////
 
 pub struct MemTableCursor {
-    cursor: BoundsCursor<PruningCursor<SkipListIteratorWrapper>>,
+    cursor: BoundsCursor<SkipListIteratorWrapper>,
 }
 
 impl Cursor for MemTableCursor {
